@@ -156,6 +156,9 @@ func (h *jsProxyHandler) toObject(*Runtime) *Object {
 
 func (h *jsProxyHandler) proxyCall(trap proxyTrap, args ...Value) (Value, bool) {
 	r := h.handler.runtime
+	// looking up the trap may come back to this proxy (the handler can inherit from it)
+	r.vm.enterNative()
+	defer r.vm.leaveNative()
 
 	if m := toMethod(r.getVStr(h.handler, unistring.String(trap.String()))); m != nil {
 		return m(FunctionCall{
@@ -468,6 +471,10 @@ func (p *proxyObject) hasPropertyStr(name unistring.String) bool {
 		return b
 	}
 
+	// forwarding to the target may come back to this proxy through a prototype chain
+	vm := p.val.runtime.vm
+	vm.enterNative()
+	defer vm.leaveNative()
 	return target.self.hasPropertyStr(name)
 }
 
@@ -480,6 +487,10 @@ func (p *proxyObject) hasPropertyIdx(idx valueInt) bool {
 		return b
 	}
 
+	// forwarding to the target may come back to this proxy through a prototype chain
+	vm := p.val.runtime.vm
+	vm.enterNative()
+	defer vm.leaveNative()
 	return target.self.hasPropertyIdx(idx)
 }
 
@@ -492,6 +503,10 @@ func (p *proxyObject) hasPropertySym(s *Symbol) bool {
 		return b
 	}
 
+	// forwarding to the target may come back to this proxy through a prototype chain
+	vm := p.val.runtime.vm
+	vm.enterNative()
+	defer vm.leaveNative()
 	return target.self.hasPropertySym(s)
 }
 
@@ -620,6 +635,10 @@ func (p *proxyObject) getStr(name unistring.String, receiver Value) Value {
 		p.proxyGetChecks(target.self.getOwnPropStr(name), v, name)
 		return v
 	}
+	// forwarding to the target may come back to this proxy through a prototype chain
+	vm := p.val.runtime.vm
+	vm.enterNative()
+	defer vm.leaveNative()
 	return target.self.getStr(name, receiver)
 }
 
@@ -632,6 +651,10 @@ func (p *proxyObject) getIdx(idx valueInt, receiver Value) Value {
 		p.proxyGetChecks(target.self.getOwnPropIdx(idx), v, idx)
 		return v
 	}
+	// forwarding to the target may come back to this proxy through a prototype chain
+	vm := p.val.runtime.vm
+	vm.enterNative()
+	defer vm.leaveNative()
 	return target.self.getIdx(idx, receiver)
 }
 
@@ -645,6 +668,10 @@ func (p *proxyObject) getSym(s *Symbol, receiver Value) Value {
 		return v
 	}
 
+	// forwarding to the target may come back to this proxy through a prototype chain
+	vm := p.val.runtime.vm
+	vm.enterNative()
+	defer vm.leaveNative()
 	return target.self.getSym(s, receiver)
 }
 
@@ -676,6 +703,10 @@ func (p *proxyObject) proxySetStr(name unistring.String, value, receiver Value, 
 		}
 		return false
 	}
+	// forwarding to the target may come back to this proxy through a prototype chain
+	vm := p.val.runtime.vm
+	vm.enterNative()
+	defer vm.leaveNative()
 	return target.setStr(name, value, receiver, throw)
 }
 
@@ -688,6 +719,10 @@ func (p *proxyObject) proxySetIdx(idx valueInt, value, receiver Value, throw boo
 		}
 		return false
 	}
+	// forwarding to the target may come back to this proxy through a prototype chain
+	vm := p.val.runtime.vm
+	vm.enterNative()
+	defer vm.leaveNative()
 	return target.setIdx(idx, value, receiver, throw)
 }
 
@@ -700,6 +735,10 @@ func (p *proxyObject) proxySetSym(s *Symbol, value, receiver Value, throw bool) 
 		}
 		return false
 	}
+	// forwarding to the target may come back to this proxy through a prototype chain
+	vm := p.val.runtime.vm
+	vm.enterNative()
+	defer vm.leaveNative()
 	return target.setSym(s, value, receiver, throw)
 }
 
